@@ -112,7 +112,7 @@ def c04(tier, seed):
         rule="fault = corruption of one encrypted chunk k (bit flip in its payload, bit flip in its tag, truncation inside it) of a valid encrypted archive, "
              "for every chunk index; contents are aligned so that a block header starts chunk k+1; the authenticated repair output is compared with the bytes "
              "the model finds in the plaintext of chunks 0..k-1 (upper bound) and with the unauthenticated output; distinct = distinct (program, fault); all are non-trivial",
-        musthit=["musthit:k0", "musthit:klast", "musthit:kmid", "musthit:kmid_with_block_header_at_next_chunk"],
+        musthit=["musthit:k0", "musthit:klast", "musthit:kmid", "musthit:kmid_with_block_header_at_next_chunk", "musthit:adversarial_content_parses_as_blocks"],
     )
 
 
@@ -294,8 +294,39 @@ def c17(tier, seed):
     )
 
 
+def build_c_driver():
+    d = need_repo_bins()
+    src = os.path.join(orch.HARNESS, "capi", "drv.c")
+    inc = os.path.join(orch.REPO, "bindings", "C")
+    lib = os.path.join(d, "libmla.a")
+    common = ["-g", "-O1", "-I", inc, src, lib, "-lpthread", "-ldl", "-lm"]
+    for out, extra in (("c20drv_asan", ["-fsanitize=address,undefined", "-fno-sanitize-recover=undefined"]), ("c20drv", [])):
+        r = subprocess.run(["clang"] + extra + common + ["-o", os.path.join(orch.TARGET, out)], stdout=subprocess.PIPE, stderr=subprocess.STDOUT, text=True)
+        if r.returncode != 0:
+            print(r.stdout[-3000:])
+            raise orch.HarnessError("C driver does not build against the bindings of the tree")
+    os.environ["VERIF_C20_DIR"] = orch.TARGET
+    log("[build] C driver (ASan+UBSan and plain) linked against libmla.a")
+
+
+def c20(tier, seed):
+    build_c_driver()
+    return generic(
+        "C20", tier, seed, scaled_quick=(), scaled_thorough=(), budgets=(120, 1500),
+        rule="a C driver compiled with ASan+UBSan (a subset also uninstrumented under valgrind memcheck) and linked against libmla.a built from the tree interprets "
+             "generated programs: archive creation through mla_archive_file_new/append/flush/close with write callbacks following an acceptance schedule (1 byte, 1..7, "
+             "4095, ...), read back by the Rust reader and compared with what was passed in; extraction of library-written archives through mla_roarchive_extract with "
+             "caller-supplied writers, compared byte for byte; injected callback failures must surface as an error status; every entry point is called with null "
+             "handles, handles the interface cleared, and null callbacks, each in its own process: error status, no crash, no sanitizer report; "
+             "distinct = distinct case; all non-trivial",
+        musthit=["held:create_read_back_by_rust_reader", "held:extract_hands_exact_bytes", "held:callback_failure_gives_error_status",
+                 "held:invalid_handle_gives_error_status", "create:valgrind", "extract:valgrind", "null_or_stale_handle_call"],
+    )
+
+
 PROPS = {
     "C01": c01,
+    "C20": c20,
     "C17": c17,
     "C16": c16,
     "C18": c18,
